@@ -51,6 +51,15 @@ def wrapper_designs(tier):
         [(u2, call("minimum", [a, b, c])), (u2, call("maximum", [a, b, c])), (u2, call("min_index", [a, b, c])),
          (u2, call("max_index", [a, b, c])), (u2, call("count", [a, b, c, lit(u2, 1)]))])
     add("minmax2", [("a", u2), ("b", u2)], [(u2, call("minimum", [a, b])), (u2, call("maximum", [b, a])), (u2, call("max_index", [a, b]))])
+    # choose_first / cond / select: type checked wrappers around if-expressions and select_with
+    x, y, z = ref("x"), ref("y"), ref("z")
+    for ty in (u2, T("bv", 2), T("s", 2)):
+        tg = f"{ty['k']}{ty['w']}"
+        add(f"choose_{tg}", [("x", BIT), ("y", BIT), ("a", ty), ("b", ty), ("c", ty)],
+            [(ty, call("choose_first", [x, a, y, b, c], ty=ty)), (ty, call("choose_first", [bin_("land", x, y), a, bin_("lor", x, y), b, c], ty=ty)),
+             (ty, call("choose_first", [x, a, b], ty=ty)), (ty, call("cond", [x, a, b], ty=ty)), (ty, call("cond", [bin_("eq", a, b), c, a], ty=ty))])
+    add("select_u2", [("a", u2), ("b", u2), ("c", u2)],
+        [(u2, call("select", [a, pint(0), b, pint(3), c, a], ty=u2)), (u2, call("select", [a, pint(1), c, pint(2), b, c], ty=u2))])
     for lo, hi in ((0, 3), (1, 2), (2, 6), (3, 3)):
         add(f"clamp_{lo}_{hi}", [("a", T("u", 3))], [(T("u", 3), call("clamp", [a], [lo, hi]))])
     return ents
